@@ -105,10 +105,8 @@ class NoInternalError(Monitor):
         if res.exc_type in DOCUMENTED_REJECTIONS.get(move[0], ()):
             return []
         e = res.extra.get("exc_obj")
-        return [
-            {
-                "kind": "exception",
-                "sig": {"op": move[0], "exc_type": res.exc_type, "site": exc_site(e) if e else None},
-                "detail": res.exc,
-            }
-        ]
+        sig = {"op": move[0], "exc_type": res.exc_type, "site": exc_site(e) if e else None}
+        a = res.extra.get("action")
+        if a:
+            sig["reported_task_is_engine_command"] = a[0] in ("fail", "noop", "continue", "retry")
+        return [{"kind": "exception", "sig": sig, "detail": res.exc}]
